@@ -725,7 +725,7 @@ pub fn run(tier: &'static str) -> i32 {
             "the roadmap is built by one construct_roadmap call whose logical-clock budget admits exactly the scripted samples".into(),
             "motions in the grey zone (an invalid stretch shorter than L) may be accepted or rejected".into(),
         ],
-        must_be_positive: vec!["milestones_added", "invalid_samples_discarded", "edges_added", "pairs_not_linked", "queries_ok", "queries_no_solution", "multi_hop_paths", "reconstruct_checks", "replaced_problem_queries", "interrupted_constructions", "interrupted_constructions_that_reported_an_error", "dense_roadmaps", "dense_queries", "problem_address_reused", "other_arc_space_queries", "budgeted_queries_timed_out"],
+        must_be_positive: vec!["milestones_added", "invalid_samples_discarded", "edges_added", "pairs_not_linked", "queries_ok", "queries_no_solution", "multi_hop_paths", "reconstruct_checks", "replaced_problem_queries", "interrupted_constructions", "interrupted_constructions_that_reported_an_error", "dense_roadmaps", "dense_queries", "other_arc_space_queries", "budgeted_queries_timed_out"],
     };
     finish(&meta, rep, t0)
 }
